@@ -388,8 +388,10 @@ def classify(ops: list, stats: dict) -> str:
     redefined = sorted({op[1] for op in ops if op[0] == 'defclass' and sum(1 for o in ops if o[0] == 'defclass' and o[1] == op[1]) > 1})
     shape = ' '.join(op[0] if op[0] != 'bear' else 'bear.' + op[1] for op in ops)
     if probe[0] in ('sub', 'thsub', 'theq'):
-        cleared = any(op[0] == 'clear' for op in ops) or any(op[0] == 'defclass' and op[2] for op in ops)
-        if stats.get('id_stale_hit', 0) or stats.get('id_reuse', 0) or probe[0] == 'sub':
+        # wrappers die when they wrap an unhashable hint (never cached) or when clear_caches() empties the wrapper cache
+        died = any(op[0] in ('sub', 'thsub', 'theq') and mentions(op[1:], 'annU') for op in ops[:-1]) or \
+            any(op[0] == 'clear' for op in ops) or bool(redefined)
+        if stats.get('id_stale_hit', 0) or stats.get('id_reuse', 0) or died:
             return 'C14:id-key:address-reuse-after-gc'
         return 'C14:door:' + shape
     if probe[0] == 'call':
@@ -494,16 +496,21 @@ def render(op) -> str:
     return k + '()'
 
 
-def fails(ops: list, oracle: FreshOracle, tries: int = 1):
+def fails(ops: list, oracle: FreshOracle, tries: int = 1, robust: bool = False):
     """Does the LAST operation of `ops` answer differently after the history than in a fresh interpreter?
-    Returns (history answer, fresh answer, stats) or None."""
+    Returns (history answer, fresh answer, stats, observed) or None. Which address a new object gets depends on
+    everything else the process allocates, so the history is run both instrumented and bare; `robust` demands the
+    failure in every one of those runs (a replay must reproduce), otherwise one is enough."""
     fresh = oracle.answers([fresh_ops(ops, len(ops) - 1)])[0]
     if fresh[0] == 'harness-error':
         return None
-    for r in run_items([{'ops': ops, 'observe': True}] * tries):
-        if 'answers' in r and r['answers'][-1] != fresh:
-            return r['answers'][-1], fresh, r['stats']
-    return None
+    items = [{'ops': ops, 'observe': True}] * tries + [{'ops': ops, 'observe': False}] * tries
+    res = run_items(items)
+    hits = [(it, r) for it, r in zip(items, res) if 'answers' in r and r['answers'][-1] != fresh]
+    if not hits or (robust and len(hits) < len(items)):
+        return None
+    it, r = hits[0]
+    return r['answers'][-1], fresh, r['stats'] if it['observe'] else {}, it['observe']
 
 
 def shrink(ops: list, oracle: FreshOracle, deadline: float) -> list:
@@ -521,8 +528,9 @@ def shrink(ops: list, oracle: FreshOracle, deadline: float) -> list:
         if not uniq:
             return None
         fresh = oracle.answers([fresh_ops(c, len(c) - 1) for c in uniq])
-        res = run_items([{'ops': c, 'observe': False} for c in uniq])
-        ok = [c for c, f, r in zip(uniq, fresh, res) if 'answers' in r and f[0] != 'harness-error' and r['answers'][-1] != f]
+        res = run_items([{'ops': c, 'observe': ob} for c in uniq for ob in (False, True)])
+        ok = [c for j, (c, f) in enumerate(zip(uniq, fresh)) if f[0] != 'harness-error' and
+              all('answers' in r and r['answers'][-1] != f for r in res[2 * j:2 * j + 2])]
         return min(ok, key=len) if ok else None
     cur = ops
     chunk = max(1, (len(cur) - 1) // 2)
@@ -759,28 +767,33 @@ def explore(ck: Check, n: int, seed: int, n_table: int, n_truth: int, shrink_sec
     bad.sort(key=lambda ki: (ki[1], ki[0]))
     t1 = time.time()
     keys_seen: set = set()
-    guessed: set = set()
+    attempts: dict = {}
     shrink_deadline = time.time() + shrink_seconds
     for k, i in bad:
-        if len(keys_seen) >= 6 or len(guessed) >= 7 or (keys_seen and time.time() > shrink_deadline):
+        if len(keys_seen) >= 6 or len(attempts) >= 8 or (keys_seen and time.time() > shrink_deadline):
             break
         ops = histories[k][:i + 1]
         guess = classify(ops, results[k].get('stats', {}))
-        if guess in keys_seen or guess in guessed:
+        if guess in keys_seen or attempts.get(guess, 0) >= 3:
             continue
-        guessed.add(guess)
-        first = fails(ops, oracle, tries=2)
+        attempts[guess] = attempts.get(guess, 0) + 1
+        first = fails(ops, oracle, robust=True)
         if first is None:
-            # not reproducible on its own (address layout differs): report the original evidence unshrunk
-            small = ops
-            hist_a, fresh_a, stats = results[k]['answers'][i], truth[json.dumps(fresh_ops(ops, i))], results[k].get('stats', {})
+            # depends on the address layout of that one process: look for an occurrence that reproduces everywhere;
+            # the third candidate is reported as it was observed, unshrunk
+            if attempts[guess] < 3:
+                continue
+            small, layout = ops, True
+            hist_a, fresh_a, stats, observed = (results[k]['answers'][i], truth[json.dumps(fresh_ops(ops, i))],
+                                                results[k].get('stats', {}), k < user_histories)
         else:
-            small = shrink(ops, oracle, max(shrink_deadline, time.time() + 20))
-            again = fails(small, oracle, tries=3)
+            small, layout = shrink(ops, oracle, max(shrink_deadline, time.time() + 20)), False
+            again = fails(small, oracle, tries=2, robust=True)
             if again is None:
                 small, again = ops, first
-            hist_a, fresh_a, stats = again
+            hist_a, fresh_a, stats, observed = again
         key = classify(small, stats)
+        attempts[guess] = 3
         if key in keys_seen:
             continue
         keys_seen.add(key)
@@ -789,7 +802,8 @@ def explore(ck: Check, n: int, seed: int, n_table: int, n_truth: int, shrink_sec
             what=f'after the history {[render(o) for o in small[:-1]]} the query {render(small[-1])} answers {hist_a}; '
                  f'a fresh interpreter answers {fresh_a}',
             replay={'ops': small, 'readable': [render(o) for o in small], 'history_answer': hist_a, 'fresh_answer': fresh_a,
-                    'measured': stats, 'unshrunk_ops': ops if len(ops) <= 80 else None}))
+                    'measured': stats, 'instrumented': observed, 'depends_on_address_layout_of_one_process': layout,
+                    'unshrunk_ops': ops if len(ops) <= 80 else None}))
     phases['shrink'] = round(time.time() - t1, 1)
     ex.extra['true_fresh_interpreter_forks'] = oracle.evaluations
     t1 = time.time()
@@ -813,13 +827,14 @@ def replay(data: dict) -> int:
     for o in ops[:-1]:
         print('   ', render(o))
     print('query:  ', render(ops[-1]))
-    got = fails(ops, oracle, tries=5)
+    got = fails(ops, oracle, tries=6)
     fresh = oracle.answers([fresh_ops(ops, len(ops) - 1)])[0]
     if got is None:
         print(f'replay: history process and fresh interpreter agree ({fresh}) — not reproduced')
         return 0
     print(f'replay: after the history the query answers {got[0]}; a fresh interpreter answers {got[1]}')
-    print(f'        measured in the history process: {got[2]}')
+    if got[3]:
+        print(f'        measured in the history process: {got[2]}')
     return 1
 
 
